@@ -429,7 +429,7 @@ func (v *Verifier) markUnknown() {
 
 func (v *Verifier) scratchEnc() *Enc {
 	if v.scratch == nil {
-		v.scratch = &Enc{v: v, q: newQuery(v.u), u: v.u, oblCount: map[string]int{}}
+		v.scratch = &Enc{v: v, q: newQuery(v.u), u: v.u, oblCount: map[string]int{}, lastResTypes: map[string]types.Type{}}
 	}
 	return v.scratch
 }
@@ -677,7 +677,7 @@ func (v *Verifier) contractWriteKeys(e *Enc, con *Contract, fn *ssa.Function) (k
 		return nil, false, false
 	}
 	scratch := newQuery(v.u)
-	se := &Enc{v: v, q: scratch, u: v.u, oblCount: map[string]int{}}
+	se := &Enc{v: v, q: scratch, u: v.u, oblCount: map[string]int{}, lastResTypes: map[string]types.Type{}}
 	// share heap-sort declarations so keys are declared in the real query too
 	st := scratch.entryState()
 	vars := map[string]Value{}
@@ -916,8 +916,34 @@ func (v *Verifier) verifyFuncOnce(fn *ssa.Function, con *Contract) (unit *Unit) 
 	unit = &Unit{Fn: fn, Contract: con}
 	q := newQuery(v.u)
 	unit.Q = q
-	e := &Enc{v: v, q: q, u: v.u, top: fn, oblCount: map[string]int{}, contract: con, curFn: fn}
+	e := &Enc{v: v, q: q, u: v.u, top: fn, oblCount: map[string]int{}, lastResTypes: map[string]types.Type{}, contract: con, curFn: fn}
 	unit.Enc = e
+	if con != nil {
+		// result types of the callees whose last result is tracked
+		for _, lr := range con.LastResults {
+			for _, b := range fn.Blocks {
+				for _, ins := range b.Instrs {
+					c, ok := ins.(*ssa.Call)
+					if !ok {
+						continue
+					}
+					name := ""
+					if c.Call.IsInvoke() {
+						name = c.Call.Method.Name()
+					} else if sc := c.Call.StaticCallee(); sc != nil {
+						name = sc.Name()
+					}
+					if name != lr.Callee {
+						continue
+					}
+					res := c.Call.Signature().Results()
+					if lr.Res < res.Len() {
+						e.lastResTypes[name] = res.At(lr.Res).Type()
+					}
+				}
+			}
+		}
+	}
 	defer func() {
 		if r := recover(); r != nil {
 			unit.Err = fmt.Sprint(r)
